@@ -48,6 +48,15 @@ class Obj(object):
     pass
 
 
+class Options(object):
+    """A foreign record that happens to have a non-callable field `write`."""
+
+    def __init__(self, serial):
+        self.read = True
+        self.write = False
+        self.serial = serial
+
+
 def add3(v):
     d, c = get_data_context(v)
     if isinstance(v, tuple) and len(v) == 2 and isinstance(v[1], dict):
@@ -78,7 +87,9 @@ def make_element(k, env):
     if k == 7:
         return IterateBins()
     if k == 8:
-        return RunIf(_pos, add3)
+        # the inner sequence depends on the flow it is given (Slice), so that
+        # batching consecutive selected values would be visible
+        return RunIf(_pos, add3, lena.flow.Slice(1))
     return MapGroup(add3, map_scalars=False)
 
 
@@ -116,7 +127,7 @@ def foreign(k, j, serial=0):
     if k == 0:
         return [(histogram([0, 1], [3]), {"output": {"to_csv": False}}), (Obj(), {"output": {"to_csv": False}})][j - 4]
     if k == 1:
-        return [("text", {"output": {"write": False}}), (5, {"output": {"filename": "nope"}})][j - 4]
+        return [("text", {"output": {"write": False}}), (Options(serial), {"output": {"filename": "nope"}})][j - 4]
     if k == 2:
         return [("x", {"output": {"filetype": "tex"}}), ("x", {"output": {}})][j - 4]
     if k == 3:
